@@ -118,3 +118,34 @@ Qed.
 Theorem fan_indices sigma (p : list vtxR) : fanconv sigma p -> (3 <= length p)%nat ->
   triangulate p = flat_map idx3 (fan_tris (last p dv) (removelast p)).
 Proof. intros Hc Hn. rewrite triangulate_run, (fan_run sigma p Hc Hn). reflexivity. Qed.
+
+(* ---- and they cover the polygon: a point strictly on the inner side of every edge lies in one of the fan triangles ---- *)
+Lemma sign_change (f : nat -> R) : forall m, f 0%nat < 0 -> 0 < f m -> exists i, (i < m)%nat /\ f i <= 0 /\ 0 < f (S i).
+Proof.
+  induction m as [|m IH]; intros H0 Hm; [lra|]. destruct (Rle_lt_dec (f m) 0) as [Hle|Hgt].
+  - exists m. split; [lia|]. split; assumption.
+  - destruct (IH H0 Hgt) as (i & Hi & H1 & H2). exists i. split; [lia|]. split; assumption.
+Qed.
+
+Definition inner_side (sigma : bool) (p : list vtxR) (q : V2) : Prop :=
+  forall i, (i < length p)%nat -> osign sigma (orientR (pt_at p i) (pt_at p (next_i (length p) i)) q).
+
+Theorem fan_covers sigma (p : list vtxR) (q : V2) : (3 <= length p)%nat -> inner_side sigma p q ->
+  exists i, (S i < length p - 1)%nat /\
+    let a := pt_at p (length p - 1) in
+    (if sigma then 0 <= orientR a (pt_at p i) q else orientR a (pt_at p i) q <= 0) /\
+    osign sigma (orientR (pt_at p i) (pt_at p (S i)) q) /\ osign sigma (orientR (pt_at p (S i)) a q).
+Proof.
+  intros Hn Hin. set (n := length p) in *. set (a := pt_at p (n - 1)).
+  pose proof (Hin (n - 1)%nat ltac:(lia)) as E1. fold n in E1. unfold next_i in E1. destruct (Nat.eqb_spec (n - 1) (n - 1)); [|lia]. fold a in E1.
+  pose proof (Hin (n - 2)%nat ltac:(lia)) as E2. fold n in E2. unfold next_i in E2. destruct (Nat.eqb_spec (n - 2) (n - 1)); [lia|].
+  replace (n - 2 + 1)%nat with (n - 1)%nat in E2 by lia. fold a in E2.
+  assert (R2 : orientR (pt_at p (n - 2)) a q = - orientR a (pt_at p (n - 2)) q) by (unfold orientR; ring).
+  set (s := if sigma then -1 else 1). set (f := fun i : nat => s * orientR a (pt_at p i) q).
+  assert (H0 : f 0%nat < 0) by (unfold f, s, osign in *; destruct sigma; lra).
+  assert (Hm : 0 < f (n - 2)%nat) by (unfold f, s, osign in *; rewrite R2 in E2; destruct sigma; lra).
+  destruct (sign_change f (n - 2)%nat H0 Hm) as (i & Hi & F1 & F2). exists i. split; [lia|]. cbv zeta. fold n a.
+  pose proof (Hin i ltac:(lia)) as E3. fold n in E3. unfold next_i in E3. destruct (Nat.eqb_spec i (n - 1)); [lia|]. replace (i + 1)%nat with (S i) in E3 by lia.
+  assert (R3 : orientR (pt_at p (S i)) a q = - orientR a (pt_at p (S i)) q) by (unfold orientR; ring).
+  unfold f, s, osign in *. rewrite R3. destruct sigma; repeat split; lra.
+Qed.
